@@ -1,5 +1,6 @@
 import Zrnt.Driver.Loop
 import Zrnt.Util.C19Driver
+import Zrnt.Config.C14Driver
 import Zrnt.Fault.Driver
 import Zrnt.Beacon.C02Driver
 import Zrnt.Gossip.Driver
@@ -12,6 +13,7 @@ namespace Zrnt.Driver
 def modes : List Mode := [
   Zrnt.ForkChoice.Driver.fc09Mode, Zrnt.ForkChoice.Driver.fc10Mode, Zrnt.ForkChoice.Driver.fc11Mode,
   Zrnt.Util.c19Mode,
+  Zrnt.Config.c14Mode,
   Zrnt.Fault.c18Mode,
   Zrnt.Beacon.c02Mode,
   Zrnt.Gossip.Driver.c12Mode,
